@@ -65,7 +65,8 @@ def containers_for(name, data, tier, big):
     if not big:
         xzv += [(0, lzma.CHECK_NONE), (0, lzma.CHECK_CRC32)] + ([(6, lzma.CHECK_SHA256)] if tier == "thorough" else [])
     for preset, check in xzv:
-        yield ("xz-p%d-c%d" % (preset, check), name + ".xz", gen.xz(data, preset, check), {"container": "xz", "variant": "preset/check"})
+        yield ("xz-p%d-c%d" % (preset, check), name + ".xz", gen.xz(data, preset, check),
+               {"container": "xz", "variant": "preset/check", "xz_check": {lzma.CHECK_NONE: "none", lzma.CHECK_CRC32: "crc32", lzma.CHECK_CRC64: "crc64", lzma.CHECK_SHA256: "sha256"}[check]})
     # --- lz4: frames of stored blocks with chosen block lengths (the decoder hands data back per block)
     if n > 0:
         ks = [n] + [k for k in ([17, 64, 100, 1000, 7000, 65536] if not big else [7000, 65536]) if k < n]
